@@ -16,13 +16,14 @@ ResEq(a, b) == IF a.t # b.t THEN FALSE
 Law(fn) == CASE fn \in {"Clone", "Round", "Round.default", "project.Geometry"} -> "map"
              [] fn \in {"simplify.DouglasPeucker", "simplify.Visvalingam", "simplify.Radial"} -> "mapnil"
              [] fn \in {"planar.Area", "planar.Length", "planar.CentroidArea.area"} -> "sum"
-             [] fn \in {"planar.DistanceFrom", "planar.DistanceFromWithIndex"} -> "min"
+             [] fn \in {"planar.DistanceFrom", "planar.DistanceFromWithIndex", "planar.DistanceFrom.in", "planar.DistanceFromWithIndex.in"} -> "min"
              [] fn \in {"clip.Geometry", "clip.Geometry.wide"} -> "filter"
              [] fn = "smartclip.Geometry" -> "filtersmart"
              [] fn = "tilecover.Geometry" -> "union"
              [] OTHER -> "none"
 ReadOnly(fn) == fn \in {"Clone", "planar.Area", "planar.Length", "planar.CentroidArea.area", "planar.DistanceFrom",
-                        "planar.DistanceFromWithIndex", "geo.Area", "geo.Length", "geo.LengthHaversine", "tilecover.Geometry",
+                        "planar.DistanceFromWithIndex", "planar.DistanceFrom.in", "planar.DistanceFromWithIndex.in", "geo.Area", "geo.Length", "geo.LengthHaversine",
+                        "tilecover.Geometry",
                         "wkb.Marshal", "ewkb.Marshal", "wkt.Marshal", "geojson.Geometry", "geojson.Feature"}
 
 RECURSIVE SumN(_, _)
